@@ -97,6 +97,8 @@ func (r *addrsRecord) clean(now time.Time) (chgd bool) {
 	if addrsLen == 0 {
 		// this is a ghost record; let's signal it has to be written.
 		// flush() will take care of doing the deletion.
+		// A peer without addresses has no signed record either.
+		r.CertifiedRecord = nil
 		return true
 	}
 
@@ -107,6 +109,12 @@ func (r *addrsRecord) clean(now time.Time) (chgd bool) {
 	}
 
 	r.Addrs = removeExpired(r.Addrs, nowUnix)
+	if len(r.Addrs) == 0 {
+		// The last address expired: the signed record goes with it, so that it
+		// is not returned again (or its sequence number enforced) if the peer
+		// gets new addresses while this record object is still cached.
+		r.CertifiedRecord = nil
+	}
 
 	return r.dirty || len(r.Addrs) != addrsLen
 }
